@@ -88,6 +88,18 @@ def wUser : PObj Rat :=
   { vals := [2], isQuantity := false, unit := ⟨⟨1, [("vfoo", 1)]⟩, 3, 0, Dim.dLength, true⟩,
     reg := ⟨qRows ++ [("vfoo", ⟨e, true⟩)], "mks"⟩ }
 
+/-- W10: default symbols re-declared (`reg.add`) with exactly the default value, dimensions and offset
+    and the OTHER SI-prefixability flag — `mile` made prefixable, `bar` made non-prefixable;
+    `unyt_quantity(2, "mile", registry=…)` -/
+def wFlag : PObj Rat :=
+  let rows : PLut Rat := qRows.map fun p =>
+    if p.1 = "mile" then (p.1, ⟨{ p.2.e with prefixable := true }, true⟩)
+    else if p.1 = "bar" then (p.1, ⟨{ p.2.e with prefixable := false }, true⟩) else p
+  { vals := [2], isQuantity := true, unit := qUnit "mile", reg := ⟨rows, "mks"⟩ }
+
+def flagOf (r : Except Err (PObj Rat)) (k : String) : Option Bool :=
+  match r with | .ok y => (y.reg.rows.find? k).map (·.e.prefixable) | .error _ => none
+
 def canonOf (r : Except Err (PObj Rat)) : Option Bool :=
   match r with | .ok y => some y.unit.canon | .error _ => none
 
@@ -179,6 +191,37 @@ def userUnitShows (T : RouteTable) : Bool :=
 def allDefectsShow (T : RouteTable) : Bool :=
   deltaDisplayShows T && modifiedDefaultShows T && removedDefaultShows T && unitSystemShows T
     && staleUnitShows T && userUnitShows T
+
+/-! ### rows that differ from the default table in the prefixable flag only -/
+
+/-- the routes listed as preserving the contents of rows keyed by a default symbol -/
+def contentPreserving (cfg : RouteCfg) : Bool := cfg.regSame || cfg.keepsModifiedDefault
+
+/-- the flag column alone: a content-preserving route also carries a row that differs from the
+    default in the prefixable flag only -/
+def flagOnlyFlags (T : RouteTable) : Bool :=
+  T.all fun p => !(contentPreserving p.2) || p.2.keepsFlagOnlyDefault
+
+/-- … and what that means on W10: `mile` comes back prefixable, `bar` non-prefixable, `2 mile → kmile`
+    is accepted with the original's answer, `→ mbar` is the original's refusal -/
+def flagOnlyKept (T : RouteTable) : Bool :=
+  T.all fun p => !(contentPreserving p.2) ||
+    (flagOf (restoreQ p.2 wFlag) "mile" == some true && flagOf (restoreQ p.2 wFlag) "bar" == some false
+      && thenFollow p.2 wFlag (.toUnit (eSym "kmile")) == obs (follow qCtx (.toUnit (eSym "kmile")) wFlag)
+      && Obs.err (thenFollow p.2 wFlag (.toUnit (eSym "kmile"))) == none
+      && thenFollow p.2 wFlag (.toUnit (eSym "mbar")) == obs (follow qCtx (.toUnit (eSym "mbar")) wFlag)
+      && Obs.err (thenFollow p.2 wFlag (.toUnit (eSym "mbar"))) == some .UnitParseError)
+
+/-- the flag is what the model's answer turns on: the same route WITHOUT it hands the default flags
+    back — `kmile` is unknown, `mbar` is known again — and the guard rejects W10 -/
+def flagOnlyLossShows (cfg : RouteCfg) : Bool :=
+  let c := { cfg with keepsFlagOnlyDefault := false }
+  flagOf (restoreQ c wFlag) "mile" == some false && flagOf (restoreQ c wFlag) "bar" == some true
+    && Obs.err (thenFollow c wFlag (.toUnit (eSym "kmile"))) == some .UnitParseError
+    && Obs.err (thenFollow c wFlag (.toUnit (eSym "mbar"))) != some .UnitParseError
+    && !(guardQ c wFlag)
+    -- a row that differs in its VALUE too still travels on such a route
+    && rowOf (restoreQ c wModG) "g" == some (some (2, true))
 
 /-- how many routes of the table each defect class concerns (non-vacuity of the checks above) -/
 def defectCounts (T : RouteTable) : List Nat :=
